@@ -270,6 +270,15 @@ pub fn ptr_to_u64<T: ?Sized>(p: *const T) -> (r: u64)
 pub assume_specification[ u64::is_power_of_two ](x: u64) -> (r: bool)
     ensures r == pow2_u64(x);
 
+pub assume_specification<T: Ord>[ core::cmp::min ](a: T, b: T) -> (r: T)
+    ensures <T as OrdSpec>::obeys_cmp_spec() ==> r == (if a.cmp_spec(&b) == core::cmp::Ordering::Greater { b } else { a });
+
+pub assume_specification<T: Ord>[ core::cmp::max ](a: T, b: T) -> (r: T)
+    ensures <T as OrdSpec>::obeys_cmp_spec() ==> r == (if a.cmp_spec(&b) == core::cmp::Ordering::Greater { a } else { b });
+
+pub assume_specification<T, E>[ Result::<T, E>::unwrap_or ](s: Result<T, E>, default: T) -> (r: T)
+    ensures r == (match s { Ok(v) => v, Err(_) => default });
+
 // ---- mode B helpers: panics as divergence (no precondition) ------------------
 
 #[verifier::external_body]
